@@ -29,7 +29,13 @@ pub const SEQS: &[&str] = &[
     "\x1b]8;;\x1b\\",
     "\x1b]8;;http://e.x/\u{65e5}\x07",
     "\x1b]8;;\x07",
+    // hyperlinks whose URL contains a hyphen between alphanumerics: with the
+    // hyphen splitter these match the open known finding KF-C13-1
+    "\x1b]8;;http://my-site.com/a\x1b\\",
+    "\x1b]8;;https://a-b.c/x-1\x07",
 ];
+
+pub const KF: &str = "KF-C13-1";
 
 fn spacey(c: Option<char>) -> bool {
     matches!(c, None | Some(' ') | Some('\n') | Some('\r'))
@@ -82,7 +88,7 @@ pub fn build(c: &Case) -> (String, Vec<&'static str>, usize) {
     (out, ins.iter().map(|x| x.1).collect(), midword)
 }
 
-pub fn check(c: &Case) -> Outcome {
+pub fn check(c: &Case, mode: Mode) -> Outcome {
     let spec = &c.spec;
     if !spec.supported() {
         return Outcome::Skip("options not available on this build");
@@ -95,6 +101,13 @@ pub fn check(c: &Case) -> Outcome {
     }
     let (coloured, seqs, midword) = build(c);
     debug_assert_eq!(scan::strip(&coloured), c.plain);
+    if mode == Mode::Normal
+        && spec.split == Split::Hyphen
+        && seqs.iter().any(|s| !super::c12::hyphen_points(s).is_empty())
+    {
+        // open known finding: the hyphen splitter splits inside the sequence
+        return Outcome::Known(KF);
+    }
     let lc = textwrap::wrap(&coloured, spec.options());
     let lp = textwrap::wrap(&c.plain, spec.options());
     let mut stripped = Vec::with_capacity(lc.len());
@@ -223,7 +236,10 @@ impl Property for P {
         };
         (
             plain,
-            prop::collection::vec((any::<u16>(), 0u8..SEQS.len() as u8), 0..=6),
+            prop::collection::vec(
+                (any::<u16>(), prop_oneof![14 => 0u8..8, 1 => 8u8..SEQS.len() as u8]),
+                0..=6,
+            ),
             gen::optspec(og),
         )
             .prop_map(|(plain, inserts, spec)| Case {
@@ -233,8 +249,8 @@ impl Property for P {
             })
             .boxed()
     }
-    fn check(c: &Case, _m: Mode) -> Outcome {
-        check(c)
+    fn check(c: &Case, m: Mode) -> Outcome {
+        check(c, m)
     }
     fn cases(tier: Tier) -> u64 {
         match tier {
@@ -243,7 +259,7 @@ impl Property for P {
         }
     }
     fn rule() -> String {
-        "cases = (ESC-free text of words (ASCII, CJK, emoji, combining, punctuation, hyphenated) and space runs; 0..6 well-formed SGR / OSC-8 sequences (payload without spaces or '-') inserted at generated character boundaries that have a non-space character on at least one side and, with the hyphen splitter, no '-' neighbour — mid-word positions included; widths 0..30, both separators, both algorithms incl. random penalties, none/hyphen splitter, break_words on/off, empty indents); oracle = every output line scans clean (no sequence cut), strip(line_k of wrap(coloured)) == line_k of wrap(stripped) for all k, and the sequences of the concatenated output == the inserted list in order. non-trivial = >= 1 sequence and >= 2 output lines; distinct = distinct serialized cases".into()
+        "cases = (ESC-free text of words (ASCII, CJK, emoji, combining, punctuation, hyphenated) and space runs; 0..6 well-formed SGR / OSC-8 sequences (payload without spaces; two of the ten have a hyphenated URL — with the hyphen splitter those cases match the open known finding KF-C13-1 and are excluded and counted) inserted at generated character boundaries that have a non-space character on at least one side and, with the hyphen splitter, no '-' neighbour — mid-word positions included; widths 0..30, both separators, both algorithms incl. random penalties, none/hyphen splitter, break_words on/off, empty indents); oracle = every output line scans clean (no sequence cut), strip(line_k of wrap(coloured)) == line_k of wrap(stripped) for all k, and the sequences of the concatenated output == the inserted list in order. non-trivial = >= 1 sequence and >= 2 output lines; distinct = distinct serialized cases".into()
     }
     fn health() -> Vec<(&'static str, f64)> {
         vec![
@@ -257,4 +273,18 @@ impl Property for P {
     fn min_nontrivial_share() -> f64 {
         0.3
     }
+}
+
+pub fn decode(data: &[u8]) -> Case {
+    let mut r = crate::fuzzdec::Reader::new(data);
+    let mode = r.u8();
+    let mut spec = crate::fuzzdec::optspec(&mut r, false, false);
+    spec.width %= 31;
+    let n = r.pick(7);
+    let inserts: Vec<(u16, u8)> = (0..n).map(|_| (r.u16(), r.u8())).collect();
+    let plain: String = crate::fuzzdec::text(mode, r.rest())
+        .chars()
+        .filter(|c| *c != '\x1b' && *c != '\r')
+        .collect();
+    Case { plain, inserts, spec }
 }
